@@ -5,6 +5,7 @@ package c20
 import (
 	"bytes"
 	"fmt"
+	"github.com/google/pprof/verif/internal/parse"
 	"io"
 	"log"
 	"math/rand"
@@ -1190,6 +1191,66 @@ func stdUIChild(args []string) int {
 	return 0
 }
 
+// perf.data sources: pprof converts each of them with the external perf_to_profile tool into a
+// temporary file of the numbered sequence, several at a time. A stand-in converter (a shell script
+// that takes its time) writes a profile that names its input; every source must be in the merged
+// report exactly once.
+func runPerf(c *harness.Ctx) harness.Result {
+	r := c.Rng
+	drv.IsolateEnv(c.Tmp)
+	tools := filepath.Join(c.Tmp, "perftools")
+	os.MkdirAll(tools, 0o755)
+	script := "#!/bin/sh\nwhile [ $# -gt 0 ]; do case \"$1\" in -i) in=$2; shift;; -o) out=$2; shift;; esac; shift; done\nsrc=$(tail -c +9 \"$in\")\nsleep 0.0$(( $$ % 7 ))\ncat \"$src\" > \"$out\"\n"
+	os.WriteFile(filepath.Join(tools, "perf_to_profile"), []byte(script), 0o755)
+	oldPath := os.Getenv("PATH")
+	os.Setenv("PATH", tools+":/usr/bin:/bin")
+	defer os.Setenv("PATH", oldPath)
+	n := 4 + r.Intn(9)
+	var srcs []string
+	want := map[string]int64{}
+	for i := 0; i < n; i++ {
+		name := fmt.Sprintf("perfsrc%02d", i)
+		fn := &profile.Function{ID: 1, Name: name, SystemName: name, Filename: "x.c"}
+		loc := &profile.Location{ID: 1, Address: 0x1000 + uint64(i)*16, Line: []profile.Line{{Function: fn, Line: 1}}}
+		p := &profile.Profile{SampleType: []*profile.ValueType{{Type: "samples", Unit: "count"}}, PeriodType: &profile.ValueType{Type: "cpu", Unit: "ns"}, Period: 1,
+			Function: []*profile.Function{fn}, Location: []*profile.Location{loc}, Sample: []*profile.Sample{{Value: []int64{int64(i + 1)}, Location: []*profile.Location{loc}}}}
+		pb := filepath.Join(c.Tmp, name+".pb.gz")
+		f, err := os.Create(pb)
+		if err != nil {
+			return harness.Result{Verdict: harness.Inconclusive, Detail: err.Error()}
+		}
+		p.Write(f)
+		f.Close()
+		perf := filepath.Join(c.Tmp, name+".perf.data")
+		os.WriteFile(perf, []byte("PERFILE2"+pb), 0o644)
+		srcs = append(srcs, perf)
+		want[name] = int64(i + 1)
+	}
+	res := harness.Result{NonTrivial: true, Sig: fmt.Sprint("perf", n, c.Index), Sample: map[string]any{"perf_sources": n}}
+	s := &drv.Session{Flags: &drv.Flags{Bools: map[string]bool{"top": true, "functions": true, "flat": true, "trim": false}, Ints: map[string]int{"nodecount": 0}, Strs: map[string]string{"output": "out", "symbolize": "none"}, Args: srcs}}
+	rr := s.Run()
+	c.Stat("perf_conversions", int64(n))
+	if rr.Panic != "" {
+		return harness.Violation("pprof over %d perf.data sources panicked: %s", n, rr.Panic)
+	}
+	out := ""
+	if bf := s.Writer.Files["out"]; bf != nil {
+		out = bf.String()
+	}
+	_, rows, err := parse.Top(out)
+	got := map[string]int64{}
+	if err == nil {
+		for _, x := range rows {
+			got[x.Name] += x.Flat
+		}
+	}
+	if rr.Err != nil || fmt.Sprint(got) != fmt.Sprint(want) {
+		res.Verdict = harness.Violated
+		res.Detail = fmt.Sprintf("%d perf.data sources, each converted to a profile that names it: the merged report has %v, expected %v (error: %v; messages: %v)", n, got, want, rr.Err, s.UI.Errs)
+	}
+	return res
+}
+
 func writeTinyELF(path string) error {
 	// ELF64 header + one PT_LOAD (R+X) at 0x400000, little endian
 	h := make([]byte, 64+56)
@@ -1254,6 +1315,7 @@ func init() {
 			{Name: "saves", Quick: 12, Thor: 300, Run: runSaves},
 			{Name: "stderr", Quick: 6, Thor: 100, Run: runStderr},
 			{Name: "stdui", Quick: 6, Thor: 200, Run: runStdUI},
+			{Name: "perf", Quick: 10, Thor: 300, Run: runPerf},
 		},
 		CaseTimeout:   2 * time.Minute,
 		HangTries:     3,
